@@ -119,7 +119,9 @@ let o_parse_op s = match sp '.' s with
   | [("cc" | "cn" | "cr"); i; j] -> OCopyCtor (ni (ios i), ni (ios j))
   | ["ae"; i] -> OAssignEmpty (ni (ios i))
   | ["dc"; i] -> ODefaultCtor (ni (ios i))
-  | ["rd"; i] -> ORead (ni (ios i))
+  (* the value category of the optional at the read site (lvalue, const lvalue, std::move, prvalue from a function, member of
+     a temporary) is a driver-side dimension: the model has ONE read, and the temporaries' transient copies are not modelled *)
+  | [("rd" | "rc" | "rm" | "rp" | "rt"); i] -> ORead (ni (ios i))
   | _ -> failwith "oop"
 let o_obs_view = function VEmpty -> "E" | VVal v -> "V" ^ hex_of_str v | VDangling -> "D"
 let o_parse_view s = if s = "E" then VEmpty else if s = "D" then VDangling else
